@@ -8,6 +8,7 @@ def errTag : Err → String
   | .typeError => "type-error"
   | .valueError => "value-error"
   | .attrError => "attribute-error"
+  | .overflowError => "overflow-error"
 
 def jInt (n : Int) : Json := .num (JsonNumber.fromInt n)
 def jOptInt : Option Int → Json | some n => jInt n | none => .null
@@ -79,6 +80,8 @@ def labelOf? (j : Json) : Option Label := do
   | [.str "expire", i] => some (.expire (← jStr? i))
   | [.str "foreign", i, r] => some (.foreign (← jStr? i) (← jOpt? recOf? r))
   | [.str "wake", i, lag] => some (.wake (← jStr? i) (← jNat? lag))
+  | [.str "wakeIssue", i] => some (.wakeIssue (← jStr? i))
+  | [.str "land", i] => some (.land (← jStr? i))
   | _ => none
 
 def snapshot (s : State) (ids : List Identity) : Json :=
@@ -86,7 +89,7 @@ def snapshot (s : State) (ids : List Identity) : Json :=
     ("status", statusJson s.status),
     ("ops", Json.mkObj (ids.filterMap (fun i => (s.ops i).map (fun o => (i,
       Json.mkObj [("alive", .bool o.alive), ("paused", .bool o.paused), ("prio", jInt o.prio),
-                  ("sleeping", .bool o.sleeping), ("exiting", .bool o.exiting)])))))]
+                  ("sleeping", .bool o.sleeping), ("exiting", .bool o.exiting), ("inflight", jOptInt o.inflight)])))))]
 
 def handle : DrvHandler := fun op args =>
   match op, args with
